@@ -1696,8 +1696,9 @@ fn main() {
     let mut rng = Rng::new(params.seed ^ 0xC06 ^ (params.get_u64("salt", 0) << 32));
     let histories = params.n(1300, 40_000);
     let len = params.get_u64("len", if params.thorough() { 80 } else { 40 }) as usize;
-    // shrinking is bounded by a number of re-executions (tiny under Miri, where one costs ~a second)
-    let shrink_runs = if params.scale < 0.1 { 40 } else { 4000 };
+    // shrinking is bounded by a number of re-executions; none under Miri (one Table call costs ~1 s there,
+    // and the native shards find and shrink the same signatures)
+    let shrink_runs = if params.scale < 0.1 { 0 } else { 4000 };
     let mut done = 0u64;
     for hno in 0..histories {
         if !rep.in_budget() {
